@@ -296,17 +296,24 @@ theorem noNl_of_plain_digits {n : Nat} : NoNl (Location.itoa n) := fun c hc e =>
   revert this
   decide
 
-open PolyVerif.Spec.GbStrict (singleSpaced spacedFrom wfRef) in
+open PolyVerif.Spec.GbStrict (singleSpaced spacedFrom wfRef wfRefIndex refNum) in
 theorem refSpecs_lines : ∀ (refs : List Reference) (i : Nat), refs.all wfRef = true → refsFit i refs = true →
+    wfRefIndex i refs = true →
     specsLines (refSpecs i refs) = GbLayout.refsLines i (refs.map toRRef) (refs.map refLayout)
-  | [], _, _, _ => rfl
-  | r :: rs, i, hw, hf => by
+  | [], _, _, _, _ => rfl
+  | r :: rs, i, hw, hf, hidx => by
+    simp only [wfRefIndex, Bool.and_eq_true, beq_iff_eq] at hidx
+    have hnum : refNum i r = Location.itoa (i + 1) := by
+      unfold refNum
+      split
+      · rfl
+      · exact hidx.1
     simp only [List.all_cons, Bool.and_eq_true] at hw
     simp only [refsFit, Bool.and_eq_true, bne_iff_ne, ne_eq, decide_eq_true_eq] at hf
     obtain ⟨⟨hrne, hfit⟩, hrest⟩ := hf
     have hr := hw.1
     simp only [wfRef, Bool.and_eq_true] at hr
-    obtain ⟨⟨⟨⟨⟨h1, h2⟩, h3⟩, h4⟩, h5⟩, h6⟩ := hr
+    obtain ⟨⟨⟨⟨⟨⟨h1, h2⟩, h3⟩, h4⟩, h5⟩, h6⟩, _⟩ := hr
     have hs : spacedFrom false r.range = true := by simpa [singleSpaced, hrne] using h1
     have hplain : Plain (Location.itoa (i + 1) ++ "  ".toList ++ r.range) := by
       intro c hc hsp
@@ -335,7 +342,7 @@ theorem refSpecs_lines : ∀ (refs : List Reference) (i : Nat), refs.all wfRef =
       have e2 : "  ".toList = [' ', ' '] := by decide
       rw [e2, List.append_assoc]
     have e1 : "  AUTHORS".toList = ' ' :: ' ' :: "AUTHORS".toList := rfl
-    rw [refSpecs, specsLines_cons, refSpecs_lines rs (i + 1) hw.2 hrest]
+    rw [refSpecs, hnum, specsLines_cons, refSpecs_lines rs (i + 1) hw.2 hrest hidx.2]
     simp only [List.map_cons, GbLayout.refsLines, List.headD_cons, List.tail_cons]
     congr 1
     unfold specLines GbLayout.refLines
@@ -550,7 +557,10 @@ theorem lines_build_eq_layout (x : Sequence) (h : covered x = true) :
         ++ PolyVerif.GbLayout.refsLines 0 (x.metadata.references.map toRRef) (x.metadata.references.map refLayout)
         ++ PolyVerif.GbLayout.extrasLines (sortedEntries x.metadata.other)
             ((sortedEntries x.metadata.other).map fun kv => breaks kv.2) := by
-    rw [headerSpecs, specsLines_append, specsLines_append, refSpecs_lines _ 0 hrefs hfit,
+    have hidx : PolyVerif.Spec.GbStrict.wfRefIndex 0 x.metadata.references = true := by
+      simp only [wfSeq, Bool.and_eq_true] at hwf
+      exact hwf.1.1.2
+    rw [headerSpecs, specsLines_append, specsLines_append, refSpecs_lines _ 0 hrefs hfit hidx,
       otherSpecs_lines _ _ (fun k _ => lookupD_singleSpaced _ hother k)]
     rw [specsLines_cons, specsLines_cons, specsLines_cons, specsLines_cons, specsLines_cons, specsLines_nil,
       specLines_nosub, specLines_nosub, specLines_nosub, specLines_nosub, specLines_onesub,
